@@ -103,6 +103,8 @@ def generate(tier):
             cases.append(("norm_factor", var, singles, n))
     for n in b["taylor_orders"]:
         for mo in (1, 2, 3):
+            if mo == 1 and n > 8:
+                continue    # the library enumerates (n)^(n) tuples there
             cases.append(("taylor", n, mo))
     for n in range(0, 7 if tier == "quick" else 9):
         for L in (1, 2, 3, 4):
